@@ -156,6 +156,35 @@ def callers_of(prog, pred):
     return out
 
 
+def entry_points_reaching(prog, pred, is_entry):
+    """Who can reach a callee satisfying `pred`?  Walks callers upwards through *private* helpers (functions that
+    are not `pub` and not trait methods): returns (entries, offenders) where `entries` = {body id: body} of the
+    functions for which is_entry(body) holds and `offenders` = [(body, call site body, term)] of reachable callers
+    that are neither an entry point nor a private helper all of whose callers are accounted for."""
+    entries, offenders = {}, []
+    seen = set()
+    work = [(b, b, t) for b, bi, t in callers_of(prog, pred)]
+    while work:
+        b, site_b, t = work.pop()
+        root = root_body(prog, b)
+        if is_entry(root):
+            entries[root.id] = root
+            continue
+        private_helper = root.vis != "pub" and root.desc.get("trait") is None and not root.from_expansion
+        if not private_helper:
+            offenders.append((root, site_b, t))
+            continue
+        if root.id in seen:
+            continue
+        seen.add(root.id)
+        ups = [(c, bi, tt) for c in prog.bodies.values() for bi, tt in c.calls() if tt.get("resolved") == root.id or tt.get("callee") == root.id]
+        if not ups:
+            offenders.append((root, site_b, t))     # dead private helper holding a sensitive call: report it
+        for c, bi, tt in ups:
+            work.append((c, c, tt))
+    return entries, offenders
+
+
 def is_method_of(d, adt, name):
     if d.get("name") != name or d.get("container") != "impl":
         return False
